@@ -11,6 +11,7 @@ PYTHONPATH="${VERIF_REPO:-/repo}" /venv/bin/python harness/pytrans3.py
 PYTHONPATH="${VERIF_REPO:-/repo}" /venv/bin/python harness/pytrans4.py
 PYTHONPATH="${VERIF_REPO:-/repo}" /venv/bin/python harness/pytrans5.py
 PYTHONPATH="${VERIF_REPO:-/repo}" /venv/bin/python harness/pytrans6.py
+PYTHONPATH="${VERIF_REPO:-/repo}" /venv/bin/python harness/pytrans7.py
 cd coq
 coq_makefile -f _CoqProject -o Makefile
 timeout 3000 make -j16
